@@ -78,6 +78,9 @@ pub enum Fate {
     /// stopped early with a task queued behind the stop whose destructor is slow: the arbiter is
     /// dead (channel closed) but not yet deregistered while the destructor runs
     StoppedSlowTeardown { ms: u8 },
+    /// blocks its thread for a while with 33..160 further commands queued behind the blocking one:
+    /// the system's Stop command arrives at the end of a long queue
+    BusyBacklog { ms: u8, n: u8 },
 }
 
 #[derive(Clone, Copy, Debug, Serialize, Deserialize, PartialEq)]
@@ -200,6 +203,23 @@ fn run_c09(c: &C09Case) -> CaseResult {
             _ => {}
         }
     }
+    // a long queue of commands behind a blocking one, in place when the stop is issued
+    let backlog_ran = Arc::new(AtomicUsize::new(0));
+    let mut backlog_sent = 0usize;
+    for s in slots.iter() {
+        if let (Fate::BusyBacklog { ms, n }, Some(a)) = (s.fate, s.arb.as_ref()) {
+            a.spawn_fn(move || thread::sleep(Duration::from_millis(15 + ms as u64 % 30)));
+            for _ in 0..(33 + n as usize % 128) {
+                let r = backlog_ran.clone();
+                if a.spawn_fn(move || {
+                    r.fetch_add(1, Ordering::SeqCst);
+                }) {
+                    backlog_sent += 1;
+                }
+            }
+        }
+    }
+    let _ = backlog_sent;
     let live_at_stop = slots.iter().filter(|s| !matches!(s.fate, Fate::StoppedJoined)).count();
     // issue the stop(s)
     let (code, second) = (c.code, c.second);
@@ -316,6 +336,7 @@ fn run_c09(c: &C09Case) -> CaseResult {
     obs.label_if(matches!(from, StopFrom::ArbiterTask { .. }), "stop-from-arbiter");
     obs.label_if(matches!(from, StopFrom::Foreign), "stop-from-foreign-thread");
     obs.label_if(c.code != 0, "nonzero-code");
+    obs.label_if(c.arbiters.iter().any(|f| matches!(f, Fate::BusyBacklog { .. })), "stop-behind-long-queue");
     Ok(obs)
 }
 
@@ -358,6 +379,9 @@ pub struct C10Case {
     /// use the system's own arbiter handle instead of a thread arbiter
     pub system_arbiter: bool,
     pub jitter: [u16; 2],
+    /// another System has been created, run and stopped on this OS thread before
+    #[serde(default)]
+    pub prior_system: bool,
 }
 
 #[derive(Clone, Debug)]
@@ -377,6 +401,8 @@ struct Shared {
     /// ids whose send happened after stop() had returned
     after_stop: Mutex<Vec<usize>>,
     wrong: Mutex<Vec<String>>,
+    /// set before any stop() of the arbiter under test is called
+    stop_sent: AtomicBool,
 }
 
 impl Shared {
@@ -410,10 +436,26 @@ enum SenderCmd {
 }
 
 fn run_c10(c: &C10Case) -> CaseResult {
+    if c.prior_system {
+        // an earlier System on this very thread, run to completion
+        let first = System::new();
+        let ran = Arc::new(AtomicBool::new(false));
+        let r2 = ran.clone();
+        first.block_on(async move {
+            let _ = Arbiter::current().spawn_fn(move || r2.store(true, Ordering::SeqCst));
+            tokio::task::yield_now().await;
+            tokio::task::yield_now().await;
+        });
+        System::current().stop();
+        let _ = first.run();
+        if !ran.load(Ordering::SeqCst) {
+            return Err(Fail::new("harness/setup", "the prior system did not run its task"));
+        }
+    }
     let runner = System::new();
     let sys = System::current();
     let sys_id = sys.id();
-    let sh = Arc::new(Shared { next_id: AtomicUsize::new(0), next_nested: AtomicUsize::new(NESTED), starts: Mutex::new(vec![]), after_stop: Mutex::new(vec![]), wrong: Mutex::new(vec![]) });
+    let sh = Arc::new(Shared { next_id: AtomicUsize::new(0), next_nested: AtomicUsize::new(NESTED), starts: Mutex::new(vec![]), after_stop: Mutex::new(vec![]), wrong: Mutex::new(vec![]), stop_sent: AtomicBool::new(false) });
     let arb = if c.system_arbiter { None } else { Some(Arbiter::new()) };
     let handle = match &arb {
         Some(a) => a.handle(),
@@ -580,7 +622,8 @@ fn run_c10(c: &C10Case) -> CaseResult {
                             let sys_here = System::current().id();
                             let sh3 = sh2.clone();
                             let nid = sh2.next_nested.fetch_add(1, Ordering::SeqCst);
-                            Arbiter::current().spawn_fn(move || {
+                            let sh4 = sh2.clone();
+                            let accepted = Arbiter::current().spawn_fn(move || {
                                 if thread::current().id() != me {
                                     sh3.wrong.lock().unwrap().push("a command sent through Arbiter::current() ran on another thread".into());
                                 }
@@ -589,9 +632,14 @@ fn run_c10(c: &C10Case) -> CaseResult {
                                 }
                                 sh3.start(nid);
                             });
+                            // read after the call: a stop sent before it is visible here
+                            if !accepted && !sh4.stop_sent.load(Ordering::SeqCst) {
+                                sh4.wrong.lock().unwrap().push("Arbiter::current().spawn_fn reported false inside a task of an arbiter nobody has stopped: Arbiter::current() does not identify the arbiter the task runs on".into());
+                            }
                         }
                         Kind::SelfStopThenSpawn => {
                             let a = Arbiter::current();
+                            sh2.stop_sent.store(true, Ordering::SeqCst);
                             a.stop();
                             let nid = sh2.next_nested.fetch_add(1, Ordering::SeqCst);
                             sh2.after_stop.lock().unwrap().push(nid);
@@ -681,6 +729,7 @@ fn run_c10(c: &C10Case) -> CaseResult {
                 }
                 // release gates first? no: a stop queued behind a busy arbiter is the interesting case
                 let h2 = handle.clone();
+                sh.stop_sent.store(true, Ordering::SeqCst);
                 run_on(s, Box::new(move || {
                     let _ = h2.stop();
                 }));
@@ -699,6 +748,7 @@ fn run_c10(c: &C10Case) -> CaseResult {
     // end: stop (if not yet) and join
     let had_stop = stop_returned;
     if !stop_returned {
+        sh.stop_sent.store(true, Ordering::SeqCst);
         handle.stop();
     }
     for t in sender_tx.iter().flatten() {
@@ -785,6 +835,8 @@ fn run_c10(c: &C10Case) -> CaseResult {
     obs.label_if(nsend >= 2, "senders>=2");
     obs.label_if(syncs > 0, "sync");
     obs.label_if(c.system_arbiter, "system-arbiter");
+    obs.label_if(c.prior_system, "second-system-on-this-thread");
+    obs.label_if(c.prior_system && c.system_arbiter && c.ops.iter().any(|(_, o)| matches!(o, COp::Spawn { k: Kind::Nested })), "current-arbiter-used-in-second-system");
     obs.label_if(!after.is_empty(), "sent-after-stop");
     obs.nontrivial = (sends_total >= 3 && had_stop && !after.is_empty()) || nsend >= 2 || labels.contains(&"panic-or-pend-task");
     Ok(obs)
@@ -805,6 +857,7 @@ pub mod gen {
             2 => Just(Fate::BusyYield),
             2 => any::<u8>().prop_map(|ms| Fate::BusyBlock { ms }),
             3 => any::<u8>().prop_map(|ms| Fate::StoppedSlowTeardown { ms }),
+            3 => (any::<u8>(), any::<u8>()).prop_map(|(ms, n)| Fate::BusyBacklog { ms, n }),
         ]
     }
 
@@ -851,7 +904,7 @@ pub mod gen {
             1 => Just(COp::Stop),
             1 => any::<u8>().prop_map(|n| COp::Burst { n }),
         ];
-        (prop::collection::vec((0u8..3, op), 1..12), 1u8..4, prop::bool::weighted(0.2), [0u16..300, 0u16..600])
-            .prop_map(|(ops, senders, system_arbiter, jitter)| C10Case { ops, senders, system_arbiter, jitter })
+        (prop::collection::vec((0u8..3, op), 1..12), 1u8..4, prop::bool::weighted(0.3), [0u16..300, 0u16..600], prop::bool::weighted(0.4))
+            .prop_map(|(ops, senders, system_arbiter, jitter, prior_system)| C10Case { ops, senders, system_arbiter, jitter, prior_system })
     }
 }
